@@ -262,6 +262,45 @@ def _collected_extras_of_any_key_type(ctx):
                     ctx.violation("collected-extras-differ", f"{plan} <- {datum!r}: rest = {out.value.rest!r}, the unknown keys are {u!r}", {"plan": plan})
 
 
+def _invalid_data_after_a_failed_request(ctx):
+    """History: the first request of a retort dies with an exception that is no CannotProvide (NameError of a forward reference that is defined
+    only later) inside a cycle of models; the class is then defined and the SAME retort is given invalid (and valid) nested data: invalid data
+    still raises LoadError and nothing else (seeded change: the call cache was cleared only after CannotProvide, so a never-bound recursion
+    stub stayed behind: TypeError 'NoneType' object is not callable / a bare ExceptionGroup)."""
+    import sys  # noqa: PLC0415
+    import types as _types  # noqa: PLC0415
+    import typing  # noqa: PLC0415
+
+    from adaptix import Retort  # noqa: PLC0415
+
+    from ..adx import MODES  # noqa: PLC0415
+
+    src = ("from dataclasses import dataclass\nfrom typing import Optional, Union, List\n"
+           "@dataclass\nclass Payload:\n    tag: 'Later'\n"
+           "@dataclass\nclass Node:\n    value: int\n    next: Union['Node', Payload, None] = None\n"
+           "@dataclass\nclass Tree:\n    kids: List['Tree']\n    leaf: Optional[Payload] = None\n")
+    data = [{"value": 1, "next": {"value": 2, "next": 5}}, {"value": 1, "next": {"value": 2, "next": {"tag": {}}}}, {"value": 1, "next": {"value": None, "next": {"value": 3, "next": [1, 2]}}},
+            {"value": "x"}, {"value": 1, "next": {"value": 2, "next": {"value": 3, "next": {"tag": {"z": "bad"}}}}}, {"value": 1, "next": {"value": 2, "next": {"tag": {"z": 1}}}}, 5]
+    tdata = [{"kids": [{"kids": [{"kids": 5}]}]}, {"kids": [{"kids": [], "leaf": {"tag": {}}}]}, {"kids": [{"kids": [{"kids": [], "leaf": {"tag": {"z": 1}}}]}]}, {"kids": [{"kids": [None]}]}]
+    for i, (dt, sc) in enumerate(MODES):
+        mod = _types.ModuleType(f"vlib_c04_fwd{i}")
+        sys.modules[mod.__name__] = mod
+        exec(compile(src, "<vlib_c04_fwd>", "exec", dont_inherit=True), mod.__dict__)  # noqa: S102
+        r = Retort(debug_trail=dt, strict_coercion=sc)
+        firsts = [attempt(r.get_loader, mod.Node), attempt(r.get_loader, typing.List[mod.Tree])]
+        ctx.count("failed_first_requests", sum(1 for f in firsts if f.kind != "ok"))
+        exec(compile("@dataclass\nclass Later:\n    z: int\n", "<vlib_c04_fwd2>", "exec", dont_inherit=True), mod.__dict__)  # noqa: S102
+        for tp, bag in ((mod.Node, data), (mod.Tree, tdata)):
+            for d in bag:
+                out = attempt(r.load, d, tp)
+                ctx.evaluated(("after-failed-request", tp.__name__, repr(d), dt.name, sc), nontrivial=True)
+                ctx.count("loads_after_failed_request")
+                ctx.count(f"outcome_{out.kind}")
+                if out.kind in ("exc", "impure"):
+                    ctx.violation(escape_key(out.exc), f"after a failed first request, {tp.__name__} <- {d!r} [{mode_name(dt, sc)}]: escaped {type(out.exc).__name__}: {str(out.exc)[:160]}",
+                                  {"datum": repr(d), "mode": mode_name(dt, sc), "exception": repr(out.exc)[:400], "first requests": [repr(f)[:120] for f in firsts]})
+
+
 def non_load(e):
     from ..adx import non_load_leaves  # noqa: PLC0415
 
@@ -296,6 +335,7 @@ def _unhashable_enum():
 
 I = spec.IntT
 DIRECTED = {
+    "invalid-data-after-a-failed-request": _invalid_data_after_a_failed_request,
     "configured-builtin-providers": _configured_providers,
     "extra-kwargs-undeliverable-keys": _extra_kwargs,
     "collected-extras-of-any-key-type": _collected_extras_of_any_key_type,
